@@ -12,7 +12,8 @@ PLAN = {
     "thorough": {"shards": 16, "cases": 10000, "min_nontrivial": 56000, "budget_s": 1500},
 }
 RULE = ("schemas with nested schemas, config types, lists of schemas / config types (index 0, middle, last, equal "
-        "items), typed lists and dicts and friendly names; for every declared leaf path a value the reference model "
+        "items), typed lists and dicts and friendly names; ~30% of the sub-schemas are reusable fragments that were "
+        "used on their own (paths listed, a configuration built and validated) before being mounted; for every declared leaf path a value the reference model "
         "labels invalid (every JSON-like and Python type: dict for scalar, scalar for container, inf, huge ints, "
         "bytes, object()) is offered through every route: attribute on the owning (sub)configuration, dotted path from "
         "the root, constructor keyword (nested through maps), load_tree, loads in each format that can carry the value, "
@@ -20,7 +21,7 @@ RULE = ("schemas with nested schemas, config types, lists of schemas / config ty
         "cincoconfig.ValidationError (a ValueError), ref_path == the declared path (a.b[2].c, d[key]) and a message "
         "starting with that path (plus ' (name)' for a friendly name); non-trivial = >= 3 rejections judged over >= 2 "
         "routes; distinct = distinct (schema, probes)")
-REQUIRED = ("object_item_probes", "reordered_list_probes", "pos:dict-key", "rejections_judged", "route:attr", "route:dotted", "route:ctor", "route:load_tree", "route:loads", "pos:nested",
+REQUIRED = ("schemas_with_premounted_fragments", "object_item_probes", "reordered_list_probes", "pos:dict-key", "rejections_judged", "route:attr", "route:dotted", "route:ctor", "route:load_tree", "route:loads", "pos:nested",
             "pos:ctype", "pos:list-item", "pos:dict-entry", "pos:list-scalar", "pos:subconfig-slot", "friendly_names_judged",
             "after_prior_load")
 ASSUMPTIONS = ["unknown keys (AttributeError) and non-map top-level documents are not 'a value for a declared field'",
@@ -38,6 +39,12 @@ def generate(rng, ctx):
     for path, nd in spec.walk(schema):
         if nd["kind"] == "field" and rng.random() < 0.3:
             nd["params"]["name"] = "Friendly %s" % nd["key"].title()
+    # some sub-schemas are reusable fragments: built and used on their own before being mounted
+    mounted = 0
+    for path, nd in spec.walk(schema):
+        if nd["kind"] == "schema" and "[]" not in path and rng.random() < 0.3:
+            nd["style"] = "mounted"
+            mounted += 1
     env = gen.GEN_ENV
     targets = enumerate_targets(schema)
     rng.shuffle(targets)
@@ -77,7 +84,7 @@ def generate(rng, ctx):
                        "key": rng.choice(["k1", "kk", "a.b", "K"]), "fmt": rng.choice(FMT_FOR_LOADS),
                        "prior_load": rng.random() < 0.4, "reorder": rng.choice([None, None, "insert0", "pop0", "reverse"]),
                        "object_items": rng.random() < 0.5})
-    return {"schema": schema, "probes": probes}
+    return {"schema": schema, "probes": probes, "mounted": mounted}
 
 
 def probes(ctx):
@@ -147,6 +154,8 @@ def run(case, ctx, res):
     env = env_of(ctx)
     rng = __import__("random").Random(len(case["probes"]) * 7919 + 13)
     judged, routes_seen = 0, set()
+    if case.get("mounted"):
+        res.count("schemas_with_premounted_fragments")
     for pr in spec.resolve(case["probes"], {"$FX": ctx.sb.fx}):
         for route in pr["routes"]:
             drv = history.Driver(ctx, res, case["schema"], env)
